@@ -52,10 +52,15 @@ def gen_form_case(rng, tier, forms=("arc", "path", "seq"), heur_p=0.35, nmax=Non
         his = [Fraction(nd["hi"]) for nd in spec["nodes"][1:] if nd["hi"] != "inf"]
         spec["nodes"][0]["hi"] = fs(max(Fraction(0), max(his + [Fraction(1)]) + Fraction(rng.randint(-3, 2))))
         case.setdefault("pre", rng.sample(["n", "obj", "con", "qubo_o", "qubo_f"], rng.randint(1, 3)))
-    if rng.random() < 0.25:
+    r_ = rng.random()
+    if r_ < 0.25:
         # the graph is assembled through the formulation object's own add_node / add_arc / set_depot, the depot named late
         case["via"] = "wrapper"
         case["arcs_before_depot"] = rng.randint(0, len(case["spec"]["arcs"]))
+    elif r_ < 0.33:
+        # … or with the depot node first, queried, and the depot declared only afterwards
+        case["via"], case["skip_set_depot"], case["then_set_depot"] = "wrapper", True, True
+        case["arcs_before_depot"] = len(case["spec"]["arcs"])
     return case
 
 
@@ -184,17 +189,21 @@ def build_form(case, with_heur=True):
             o0.set_vehicle_cap(VU.val(spec["cap"]))
         if spec.get("init") is not None:
             o0.set_initial_loading(VU.val(spec["init"]))
-        for nd in spec["nodes"][1:] + spec["nodes"][:1]:
+        skip_depot = bool(case.get("skip_set_depot"))      # the depot node is added first and set_depot is left to the history
+        for nd in (spec["nodes"] if skip_depot else spec["nodes"][1:] + spec["nodes"][:1]):
             o0.add_node(nd["name"], VU.val(nd["demand"]), (VU.val(nd["lo"]), VU.val(nd["hi"])))
         kb = case.get("arcs_before_depot", 0)
         for a in spec["arcs"][:kb]:
             o0.add_arc(a[0], a[1], VU.val(a[2]), VU.val(a[3]))
-        o0.set_depot(spec["nodes"][0]["name"])
+        if not skip_depot:
+            o0.set_depot(spec["nodes"][0]["name"])
         for a in spec["arcs"][kb:]:
             o0.add_arc(a[0], a[1], VU.val(a[2]), VU.val(a[3]))
         # the routing problem described by these calls is the one a depot-first construction describes (the strict sequence flavour
         # checks arcs against the depot known at the time of the call, so only the base flavour is compared)
-        if not (form == "seq" and case["strict"]):
+        if skip_depot:
+            pass
+        elif not (form == "seq" and case["strict"]):
             vr = VU.build_vrptw(spec)
             ref = (ArcBasedRoutingProblem(vr) if form == "arc" else PathBasedRoutingProblem(vr) if form == "path"
                    else SequenceBasedRoutingProblem(vr, strict=False))
@@ -231,6 +240,15 @@ def build_form(case, with_heur=True):
         o = o0 if o0 is not None else SequenceBasedRoutingProblem(v, strict=case["strict"])
         o.set_max_vehicles(case["V"])
         o.set_max_sequence_length(case["L"])
+    if case.get("then_set_depot"):
+        # the object was assembled through its own API with the depot node first but never declared; it is queried, and only then told
+        # which node is the depot (the graph does not move; the sequence class installs its depot self-loop at that moment)
+        try:
+            if int(o.get_num_variables()) >= 1:
+                o.get_qubo(feasibility=True)
+        except Exception:  # noqa
+            pass
+        o.set_depot(case["spec"]["nodes"][0]["name"])
     outcome = None
     if with_heur and case.get("heur") is not None:
         for q in case.get("pre", []):
@@ -326,11 +344,22 @@ def check_query_mutate_query(case, res):
         if int(o.get_num_variables()) >= 1:
             VU.impl_data(o)
             o.get_qubo(feasibility=True)
+        k = case.get("seed", 0)
+        if form == "seq" and k % 2 == 1:
+            # the same fleet size / sequence length set again (the surcharges of dummy vehicles are reset by set_max_vehicles)
+            o.set_max_vehicles(int(o.max_vehicles))
+            res.features.append("query-mutate-query:same-sizes-again")
+            if not check_fresh_twin(o, form, res):
+                return
+            o.set_max_sequence_length(int(o.max_sequence_length))
+            if not check_fresh_twin(o, form, res):
+                return
+            if int(o.get_num_variables()) >= 1:
+                VU.impl_data(o)
         g = VU.graph_of(o)
         names = [nd[0] for nd in g["nodes"]]
         if len(names) < 2:
             return
-        k = case.get("seed", 0)
         # prefer a destination whose window never closes (accepted by the strict rule as well)
         dests = [i for i, nd in enumerate(g["nodes"]) if nd[3] == core.INF and i != 0] or list(range(1, len(names)))
         j = dests[k % len(dests)]
@@ -340,6 +369,7 @@ def check_query_mutate_query(case, res):
             o.add_time_points(sorted({float(t) for t in o.time_points} | {float(max([0.0] + [float(t) for t in o.time_points]) + 1.0)}))
         if form == "seq" and k % 3 == 0:
             o.set_max_vehicles(int(o.max_vehicles) + 1)
+
         res.features.append(f"query-mutate-query:{'arc-added' if added else 'arc-refused'}")
     except Exception as e:  # noqa
         res.fail(f"{form}:mutator-raises", f"changing the problem through the object after a query raised {e!r}")
